@@ -32,10 +32,13 @@ class ASTWalker:
     def __walk(self, node: MypyFile | ClassDef | Decorator | FuncDef | AssignmentStmt, visited_nodes: set) -> None:
         # We ignore decorators and just take their inner functions, since we can get decorator information from the
         # function node too
+        if isinstance(node, OverloadedFuncDef):
+            # Properties with a setter and overloaded functions without an implementation (e.g. in protocols) have no
+            # implementation node, in that case we take the first item (the getter, or the first overload)
+            node = node.impl if node.impl is not None else node.items[0]
+
         if isinstance(node, Decorator):
             node = node.func
-        elif isinstance(node, OverloadedFuncDef):
-            node = node.impl
 
         if node in visited_nodes:  # pragma: no cover
             raise AssertionError("Node visited twice")
